@@ -127,11 +127,15 @@ def run_prop_on(prop: str, repo: str):
     ctx = Ctx(pkg, res, col, "quick", prop)
     mod = importlib.import_module("props." + prop.lower())
     mod.run(ctx)
-    for name, actual, minimum in col.floors:
-        if actual < minimum:
-            from sa.model import AnalysisError
-            raise AnalysisError(f"instance floor {name}: {actual} < {minimum}")
     v, k, _ = classify(col)
+    from sa.model import AnalysisError
+    # same policy as report.finish: floors / undecided constructs are analysis errors only without a violation
+    if not v:
+        for name, actual, minimum in col.floors:
+            if actual < minimum:
+                raise AnalysisError(f"instance floor {name}: {actual} < {minimum}")
+        if col.undecided_msgs:
+            raise AnalysisError("undecided: " + "; ".join(col.undecided_msgs[:2]))
     return v, k
 
 
